@@ -4,6 +4,9 @@
 #include <AIToolbox/Logging.hpp>
 
 #include <AIToolbox/POMDP/Types.hpp>
+#ifdef AITB_VERIF
+#include <AIToolbox/Verif/Hooks.hpp>
+#endif
 #include <AIToolbox/POMDP/TypeTraits.hpp>
 
 #include <AIToolbox/POMDP/Algorithms/BlindStrategies.hpp>
@@ -484,6 +487,9 @@ namespace AIToolbox::POMDP {
         // ### Begin work ###
         // ##################
 
+#ifdef AITB_VERIF
+        unsigned verifIteration_ = 0;
+#endif
         while (true) {
             // Deep sample a branch of the action/observation trees. The
             // sampled nodes (except the last one where we stop) are added to
@@ -552,6 +558,12 @@ namespace AIToolbox::POMDP {
                 "; alpha vectors: " << lbVList.size() <<
                 "; belief points: " << ubV.first.size());
 
+#ifdef AITB_VERIF
+            if (Verif::anytimeObserver) {
+                const Verif::AnytimeSnapshot snap{"SARSOP", verifIteration_++, treeStorage_[0].LB, treeStorage_[0].UB, &lbVList, &ubQ, &ubV};
+                if (!Verif::anytimeObserver(snap)) break;
+            }
+#endif
             if (treeStorage_[0].UB - treeStorage_[0].LB <= tolerance_)
                 break;
         }
